@@ -363,8 +363,16 @@ def evaluate(prop: Property, tier: str, seed: int):
                     known_hits.setdefault(fid, c)
                     st["known_finding_cases"] += 1
                 elif agree and dom and not pyviol:
-                    problems.append(Problem("internal", suite.name, c,
-                                            {"impl": r, "why": "model = implementation, input in the proved domain, yet the specification oracle rejects: harness and theorem disagree"}))
+                    # The specification oracle is the arbiter of the property.  Model = implementation on an input of the
+                    # proved domain while the oracle rejects happens when the model's input was already produced by
+                    # the implementation (an intermediate result that carries the defect), or when harness and theorem
+                    # disagree; both are reported as a violation with the failing input, the note says which to look at.
+                    problems.append(Problem("violation", suite.name, c,
+                                            {"impl": r, "bits": b, "py_oracle": None,
+                                             "note": "model = implementation and the input lies in the proved domain, yet the specification "
+                                                     "oracle rejects the implementation's output: either the part of the input that the model "
+                                                     "takes from the implementation (an intermediate result) already carries the defect, or "
+                                                     "harness and theorem disagree"}))
                 else:
                     problems.append(Problem("violation", suite.name, c, {"impl": r, "bits": b, "py_oracle": pyviol}))
             elif not agree:
